@@ -216,7 +216,8 @@ theorem addI_nat (a b : Nat) (h : a + b < two63) : addI (a : Int) (b : Int) = ((
 theorem parseRoots_spec (hasRootList : Bool) (size rc : Nat) (boc : Bytes) (s : Nat)
     (hs1 : 1 ≤ size) (hs4 : size ≤ 4) (hrc : rc < 4294967296) :
     Spec (parseRoots hasRootList size rc boc) s
-      (fun r s' => s' ≤ s + 8 * boc.length + 8 ∧ r.1.length ≤ boc.length + 1 ∧ r.2.length ≤ boc.length)
+      (fun r s' => s' ≤ s + 8 * boc.length + 8 ∧ r.1.length ≤ boc.length + 1 ∧ r.1.length < 4294967296 ∧
+        r.2.length ≤ boc.length)
       (fun s' => s' ≤ s + 8 * boc.length + 8) := by
   unfold parseRoots
   have hrc63 : rc < two63 := by unfold two63; omega
@@ -238,14 +239,14 @@ theorem parseRoots_spec (hasRootList : Bool) (size rc : Nat) (boc : Bytes) (s : 
     obtain ⟨vs, hvs, hl⟩ := readList_ok rc size false boc hlen
     simp only [Int.toNat_natCast]
     apply spec_lift_ok hvs
-    refine ⟨by unfold szUint; omega, by simp only [hl]; omega, by simp⟩
+    refine ⟨by unfold szUint; omega, by simp only [hl]; omega, by simp only [hl]; omega, by simp⟩
   · apply spec_ite
     · intro _; exact spec_fail (by omega)
     intro _
     apply spec_bind
     apply spec_makeSlice (by unfold szUint; omega)
     apply spec_pure
-    refine ⟨by unfold szUint; omega, by simp, by simp⟩
+    refine ⟨by unfold szUint; omega, by simp, by simp, by simp⟩
 
 theorem parseIndex_spec (hasIdx hasCache : Bool) (off cc : Nat) (boc : Bytes) (s : Nat)
     (ho : off ≤ 8) (hcc : cc < 4294967296) :
@@ -323,6 +324,7 @@ structure HeaderOK (h : Header) (len : Nat) : Prop where
   data_len : h.cellsData.length = h.totCellsSize
   tot_le : h.totCellsSize ≤ len
   roots_le : h.rootList.length ≤ len
+  roots_lt : h.rootList.length < 4294967296
 
 theorem parseHeader_spec (boc0 : Bytes) (s : Nat) (hb : boc0.length < two63) :
     Spec (parseHeader boc0) s
@@ -341,8 +343,8 @@ theorem parseHeader_spec (boc0 : Bytes) (s : Nat) (hb : boc0.length < two63) :
       simp only at hl2 hc
       apply spec_bind
       apply spec_mono (parseRoots_spec k.hasRootList k.sizeBytes c.rootsCount boc2 s2 hc.size_ge hc.size_le hc.roots_lt)
-      · rintro ⟨rl, boc3⟩ s3 ⟨hs3, hrl, hl3⟩
-        simp only at hrl hl3
+      · rintro ⟨rl, boc3⟩ s3 ⟨hs3, hrl, hrl32, hl3⟩
+        simp only at hrl hrl32 hl3
         apply spec_bind
         apply spec_mono (parseIndex_spec k.hasIdx k.hasCache c.offsetBytes c.cellsCount boc3 s3 hc.off_le hc.cells_lt)
         · rintro ⟨ix, boc4⟩ s4 ⟨hs4, hl4⟩
@@ -354,7 +356,7 @@ theorem parseHeader_spec (boc0 : Bytes) (s : Nat) (hb : boc0.length < two63) :
           · rintro cd s5 ⟨hs5, hcd, _⟩
             apply spec_pure
             refine ⟨by simp only; omega, ⟨hc.size_ge, hc.size_le, hc.cells_lt, hc.cells_le, hcd, by simp only; omega,
-              by simp only; omega⟩⟩
+              by simp only; omega, hrl32⟩⟩
           · intro s' h; omega
         · intro s' h
           have htot := hc.tot_le
@@ -363,4 +365,353 @@ theorem parseHeader_spec (boc0 : Bytes) (s : Nat) (hb : boc0.length < two63) :
       · intro s' h; omega
     · intro s' h; omega
   · intro s' h; omega
+/-! ### cells -/
+
+/-- what deserializeCellData guarantees about a cell it returns -/
+structure RawOK (c : RawCell) : Prop where
+  bits_le : c.bits.length ≤ 1023
+  mask_lt : c.mask < 8
+  ty_lt : c.ty < 256
+  refs_le : c.refs.length ≤ 7
+  pruned : c.ty = tyPruned → 2 + LevelMask.hashIndex c.mask * (hashSize + depthSize) ≤ (c.bits.length + 7) / 8
+
+theorem parseCell_spec (cd0 : Bytes) (refSize : Nat) (s : Nat) (hr : refSize ≤ 4) :
+    Spec (parseCell cd0 refSize) s
+      (fun r s' => RawOK r.1 ∧ r.2.length + 2 ≤ cd0.length ∧ s' + r.2.length ≤ s + 296 + cd0.length)
+      (fun s' => s' ≤ s + 296 + cd0.length) := by
+  unfold parseCell
+  apply spec_ite
+  · intro _; exact spec_fail (by omega)
+  intro h2
+  have h2 : 2 ≤ cd0.length := (lenLt_nat_false cd0 2).1 (by simpa using h2)
+  obtain ⟨d1b, hd1, _⟩ := head_ok cd0 (by omega)
+  apply spec_bind
+  apply spec_lift_ok hd1
+  apply spec_bind
+  apply spec_lift_ok (sliceFrom_ok _ _ (by omega))
+  obtain ⟨d2b, hd2, _⟩ := head_ok (cd0.drop 1) (by simp; omega)
+  apply spec_bind
+  apply spec_lift_ok hd2
+  apply spec_bind
+  apply spec_lift_ok (sliceFrom_ok _ _ h2)
+  have hd1lt : d1b.toNat < 256 := d1b.toNat_lt
+  have hd2lt : d2b.toNat < 256 := d2b.toNat_lt
+  generalize d1b.toNat = d1 at *
+  generalize d2b.toNat = d2 at *
+  apply spec_bind
+  apply spec_mono (Q := fun (cd : Bytes) s' => s' = s ∧ cd.length + 2 ≤ cd0.length) (E := fun s' => s' = s)
+  · split
+    · apply spec_ite
+      · intro _; exact spec_fail rfl
+      intro ho
+      have ho := (lenLt_false _ _).1 (by simpa using ho)
+      have ho : LevelMask.hashesCount (d1 / 32) * (hashSize + depthSize) ≤ (cd0.drop 2).length := by exact_mod_cast ho
+      apply spec_lift_ok (sliceFrom_ok _ _ ho)
+      refine ⟨rfl, ?_⟩
+      simp only [List.length_drop] at *
+      omega
+    · apply spec_pure
+      exact ⟨rfl, by simp only [List.length_drop]; omega⟩
+  · rintro cd s1 ⟨hs1, hcd⟩
+    subst hs1
+    have hdbs : d2 / 2 + d2 % 2 ≤ 128 := by omega
+    have hrn : refSize * (d1 % 8) ≤ 28 := by
+      have : refSize * (d1 % 8) ≤ 4 * (d1 % 8) := Nat.mul_le_mul_right _ hr
+      omega
+    apply spec_ite
+    · intro _; exact spec_fail (by omega)
+    intro hl
+    rw [mulI_nat _ _ (by unfold two63; omega), addI_nat _ _ (by unfold two63; omega)] at hl
+    have hl : d2 / 2 + d2 % 2 + refSize * (d1 % 8) ≤ cd.length := (lenLt_nat_false _ _).1 (by simpa using hl)
+    apply spec_bind
+    apply spec_mono (Q := fun (ty : Nat) s' => s' = s1 ∧ ty < 256) (E := fun s' => s' = s1)
+    · split
+      · apply spec_ite
+        · intro _; exact spec_fail rfl
+        intro hd
+        obtain ⟨t, ht, _⟩ := readN_ok 1 cd 0 (by omega) (by unfold two64; omega)
+        apply spec_bind
+        apply spec_lift_ok ht
+        apply spec_pure
+        exact ⟨rfl, Nat.mod_lt _ (by omega)⟩
+      · apply spec_pure
+        exact ⟨rfl, by omega⟩
+    · rintro ty s2 ⟨hs2, hty⟩
+      subst hs2
+      apply spec_bind
+      apply spec_alloc
+      apply spec_bind
+      apply spec_lift_ok (sliceTo_ok _ _ (by omega))
+      apply spec_bind
+      apply spec_makeSlice (by omega)
+      have harr : (cd.take (d2 / 2 + d2 % 2)).length = d2 / 2 + d2 % 2 := by
+        rw [List.length_take]; omega
+      apply spec_bind
+      rcases setTopUpped_spec (cd.take (d2 / 2 + d2 % 2)) (!decide (d2 % 2 > 0)) with ⟨e, he⟩ | ⟨bits, hb, hb1, hb2, hb3⟩
+      · rw [he]
+        exact spec_fail (by unfold szCell; omega)
+      · rw [harr] at hb1 hb2 hb3
+        apply spec_lift_ok hb
+        apply spec_ite
+        · intro _; exact spec_fail (by unfold szCell; omega)
+        intro hpr
+        apply spec_bind
+        apply spec_lift_ok (sliceFrom_ok _ _ (by omega))
+        apply spec_bind
+        apply spec_makeSlice (by unfold szUint; omega)
+        obtain ⟨refs, hrefs, hrl⟩ := readRefs_ok (d1 % 8) refSize (cd.drop (d2 / 2 + d2 % 2))
+          (by simp only [List.length_drop]; rw [Nat.mul_comm]; omega)
+        apply spec_bind
+        apply spec_lift_ok hrefs
+        apply spec_pure
+        refine ⟨⟨?_, ?_, hty, ?_, ?_⟩, ?_, ?_⟩
+        · show bits.length ≤ 1023
+          by_cases hf : d2 % 2 > 0
+          · have := hb2 (by simp [hf]) (by omega)
+            omega
+          · omega
+        · show d1 / 32 < 8
+          omega
+        · show refs.length ≤ 7
+          omega
+        · intro hp
+          show 2 + LevelMask.hashIndex (d1 / 32) * (hashSize + depthSize) ≤ (bits.length + 7) / 8
+          have : ¬ (d2 / 2 + d2 % 2 < 2 + LevelMask.hashIndex (d1 / 32) * (hashSize + depthSize)) := by
+            intro hc; exact hpr ⟨hp, hc⟩
+          omega
+        · simp only [List.length_drop]; omega
+        · simp only [List.length_drop]
+          unfold szCell szUint
+          rw [Nat.mul_comm (d1 % 8) refSize]
+          omega
+    · intro s' h; omega
+  · intro s' h; omega
+
+
+theorem parseCells_spec (k : Nat) (cd : Bytes) (refSize : Nat) (s : Nat) (hr : refSize ≤ 4) :
+    Spec (parseCells k cd refSize) s
+      (fun cs s' => cs.length = k ∧ (∀ c ∈ cs, RawOK c) ∧ s' ≤ s + 296 * k + cd.length)
+      (fun s' => s' ≤ s + 296 * k + cd.length) := by
+  induction k generalizing cd s with
+  | zero =>
+    unfold parseCells
+    apply spec_pure
+    exact ⟨rfl, by simp, by omega⟩
+  | succ k ih =>
+    unfold parseCells
+    apply spec_bind
+    apply spec_mono (parseCell_spec cd refSize s hr)
+    · rintro ⟨c, rest⟩ s1 ⟨hc, hl, hs1⟩
+      simp only at hc hl hs1
+      apply spec_bind
+      apply spec_mono (ih rest s1)
+      · rintro cs s2 ⟨hlen, hall, hs2⟩
+        apply spec_pure
+        refine ⟨by simp [hlen], ?_, by rw [Nat.mul_succ, ← Nat.add_assoc]; omega⟩
+        intro x hx
+        rcases List.mem_cons.1 hx with rfl | hx
+        · exact hc
+        · exact hall x hx
+      · intro s' h; rw [Nat.mul_succ, ← Nat.add_assoc]; omega
+    · intro s1 h; rw [Nat.mul_succ, ← Nat.add_assoc]; omega
+
+/-! ### back-patching and roots -/
+
+theorem checkRefs_spec (i : Int) (n : Nat) (rs : List Int) :
+    (∃ e, checkRefs i n rs = .err e) ∨ (checkRefs i n rs = .ok () ∧ ∀ r ∈ rs, i < r ∧ r < n) := by
+  induction rs with
+  | nil => exact .inr ⟨rfl, by simp⟩
+  | cons r rs ih =>
+    unfold checkRefs
+    split
+    · exact .inl ⟨_, rfl⟩
+    · split
+      · exact .inl ⟨_, rfl⟩
+      · rcases ih with ⟨e, he⟩ | ⟨hok, hall⟩
+        · exact .inl ⟨e, he⟩
+        · refine .inr ⟨hok, ?_⟩
+          intro x hx
+          rcases List.mem_cons.1 hx with rfl | hx
+          · omega
+          · exact hall x hx
+
+/-- the property of a raw cell table established by the back-patching loop for the cells below `k` -/
+def Patched (cells : Array RawCell) (k : Nat) : Prop :=
+  ∀ i (h : i < cells.size), i < k → cells[i].refs.length ≤ 4 ∧ ∀ r ∈ cells[i].refs, (i : Int) < r ∧ r < (cells.size : Int)
+
+theorem backPatch_spec (cells : Array RawCell) (k : Nat) (hk : k ≤ cells.size) :
+    (∃ e, backPatch cells k = .err e) ∨ (backPatch cells k = .ok () ∧ Patched cells k) := by
+  induction k with
+  | zero => exact .inr ⟨rfl, fun i _ h => by omega⟩
+  | succ k ih =>
+    unfold backPatch
+    have hk' : k < cells.size := by omega
+    simp only [Array.getElem?_eq_getElem hk']
+    split
+    · exact .inl ⟨_, rfl⟩
+    · rename_i hlen
+      rcases checkRefs_spec k cells.size cells[k].refs with ⟨e, he⟩ | ⟨hok, hall⟩
+      · exact .inl ⟨e, by simp [he, bind, Outcome.bind]⟩
+      · rcases ih (by omega) with ⟨e, he⟩ | ⟨hbp, hp⟩
+        · exact .inl ⟨e, by simp [hok, he, bind, Outcome.bind]⟩
+        · refine .inr ⟨by simp [hok, hbp, bind, Outcome.bind], ?_⟩
+          intro i hi hik
+          by_cases h : i = k
+          · subst h
+            exact ⟨by omega, hall⟩
+          · exact hp i hi (by omega)
+
+theorem checkRoots_spec (n : Nat) (rs : List Nat) :
+    (∃ e, checkRoots n rs = .err e) ∨ (checkRoots n rs = .ok () ∧ ∀ r ∈ rs, r < n) := by
+  induction rs with
+  | nil => exact .inr ⟨rfl, by simp⟩
+  | cons r rs ih =>
+    unfold checkRoots
+    split
+    · exact .inl ⟨_, rfl⟩
+    · rcases ih with ⟨e, he⟩ | ⟨hok, hall⟩
+      · exact .inl ⟨e, he⟩
+      · refine .inr ⟨hok, ?_⟩
+        intro x hx
+        rcases List.mem_cons.1 hx with rfl | hx
+        · omega
+        · exact hall x hx
+
+/-! ### the whole reader -/
+
+/-- well-formedness of row `i` of a table with `n` rows -/
+structure RowOK (n i : Nat) (row : CellRow) : Prop where
+  bits_le : row.bits.length ≤ 1023
+  mask_lt : row.mask < 8
+  ty_lt : row.ty < 256
+  refs_le : row.refs.length ≤ 4
+  /-- every reference points strictly forward and inside the table: the table is acyclic and closed -/
+  refs_fwd : ∀ r ∈ row.refs, i < r ∧ r < n
+  /-- a pruned branch holds the hashes and depths of all its lower levels -/
+  pruned : row.ty = tyPruned → 2 + LevelMask.hashIndex row.mask * (hashSize + depthSize) ≤ (row.bits.length + 7) / 8
+
+/-- soundness of a parse result: every row is well formed and every root is a row -/
+def Sound (t : Table) (roots : List Nat) : Prop :=
+  (∀ i (h : i < t.size), RowOK t.size i t[i]) ∧ ∀ r ∈ roots, r < t.size
+
+theorem toInt_u32 (x : Nat) (h : x < 4294967296) : (toInt x).toNat = x := by
+  rw [toInt_small x (by unfold two63; omega)]; simp
+
+theorem start_u32 (x : Nat) (h : x < 4294967296) : (toInt ((x + two64 - 1) % two64) + 1).toNat = x := by
+  by_cases h0 : x = 0
+  · subst h0
+    have : (0 + two64 - 1) % two64 = two64 - 1 := by unfold two64; decide
+    rw [this]
+    unfold toInt two64 two63
+    decide
+  · have : (x + two64 - 1) % two64 = x - 1 := by
+      have : x + two64 - 1 = (x - 1) + two64 := by unfold two64; omega
+      rw [this, Nat.add_mod_right, Nat.mod_eq_of_lt (by unfold two64; omega)]
+    rw [this, toInt_small _ (by unfold two63; omega)]
+    omega
+
+theorem mul296 (c l : Nat) (h : 2 * c ≤ l) : 296 * c ≤ 148 * l := by
+  have := Nat.mul_le_mul_left 148 h
+  rw [← Nat.mul_assoc] at this
+  exact this
+
+theorem parseBocM_spec (boc : Bytes) (hb : boc.length < two63) :
+    Spec (parseBocM boc) 0 (fun r s' => Sound r.1 r.2 ∧ s' ≤ 185 * boc.length + 8)
+      (fun s' => s' ≤ 185 * boc.length + 8) := by
+  unfold parseBocM
+  apply spec_bind
+  apply spec_mono (parseHeader_spec boc 0 hb)
+  · rintro h s1 ⟨hs1, hh⟩
+    have hcl := hh.cells_le
+    have hcc := hh.cells_lt
+    have htl := hh.tot_le
+    have hrl := hh.roots_le
+    have hrl32 := hh.roots_lt
+    have hdl := hh.data_len
+    apply spec_bind
+    apply spec_makeSlice (by unfold szPtr; omega)
+    apply spec_bind
+    apply spec_makeSlice (by unfold szSliceHdr; omega)
+    rw [toInt_u32 _ hcc]
+    apply spec_bind
+    apply spec_mono (parseCells_spec h.cellCount h.cellsData h.sizeBytes _ hh.size_le)
+    · intro cs s2 hq
+      have hlen := hq.1
+      have hall := hq.2.1
+      have hs2 := hq.2.2
+      clear hq
+      have hsize : cs.toArray.size = h.cellCount := by simp [hlen]
+      have hK' := mul296 h.cellCount boc.length (by omega)
+      generalize 296 * h.cellCount = K at hs2 hK'
+      simp only [szPtr, szSliceHdr] at *
+      rw [start_u32 _ hcc]
+      apply spec_bind
+      rcases backPatch_spec cs.toArray h.cellCount (by omega) with ⟨e, he⟩ | ⟨hok, hp⟩
+      · rw [he]; exact spec_fail (by omega)
+      · apply spec_lift_ok hok
+        apply spec_bind
+        apply spec_makeSlice (by unfold two63 at *; omega)
+        apply spec_bind
+        rcases checkRoots_spec cs.toArray.size h.rootList with ⟨e, he⟩ | ⟨hrok, hroots⟩
+        · rw [he]; exact spec_fail (by omega)
+        · apply spec_lift_ok hrok
+          apply spec_pure
+          refine ⟨⟨?_, ?_⟩, by omega⟩
+          · intro i hi
+            simp only [Array.size_map] at hi
+            have hraw : RawOK cs.toArray[i] := hall _ (by simp)
+            obtain ⟨h4, hfw⟩ := hp i hi (by omega)
+            simp only [Array.getElem_map, Array.size_map]
+            refine ⟨hraw.bits_le, hraw.mask_lt, hraw.ty_lt, by simpa [RawCell.toRow] using h4, ?_, hraw.pruned⟩
+            intro r hr
+            simp only [RawCell.toRow, List.mem_map] at hr
+            obtain ⟨r0, hr0, rfl⟩ := hr
+            have := hfw r0 hr0
+            omega
+          · intro r hr
+            simpa using hroots r hr
+    · intro s' hs
+      have hK' := mul296 h.cellCount boc.length (by omega)
+      generalize 296 * h.cellCount = K at hs hK'
+      simp only [szPtr, szSliceHdr] at *
+      omega
+  · intro s' hs; omega
+end Tongo.Boc
+
+namespace Tongo.Boc
+open Tongo
+
+theorem mapM_isSome {α β} (f : α → Option β) (l : List α) (h : ∀ x ∈ l, (f x).isSome) : (l.mapM f).isSome := by
+  induction l with
+  | nil => simp
+  | cons a l ih =>
+    have ha := h a (by simp)
+    have hl := ih (fun x hx => h x (by simp [hx]))
+    rcases hfa : f a with _ | b
+    · simp [hfa] at ha
+    · rcases hml : l.mapM f with _ | bs
+      · simp [hml] at hl
+      · simp [List.mapM_cons, hfa, hml]
+
+/-- rows that only refer to later rows unfold into finite trees -/
+theorem unfold_isSome (t : Table) (hrows : ∀ i (h : i < t.size), RowOK t.size i t[i]) :
+    ∀ fuel i, i < t.size → t.size - i ≤ fuel → (Table.unfold t fuel i).isSome := by
+  intro fuel
+  induction fuel with
+  | zero => intro i hi hf; omega
+  | succ fuel ih =>
+    intro i hi hf
+    unfold Table.unfold
+    simp only [Array.getElem?_eq_getElem hi]
+    have hrow := hrows i hi
+    have hm : (t[i].refs.mapM (fun r => if r > i then Table.unfold t fuel r else none)).isSome := by
+      apply mapM_isSome
+      intro r hr
+      have := hrow.refs_fwd r hr
+      simp only [gt_iff_lt, this.1, if_true]
+      exact ih r this.2 (by omega)
+    rcases hml : t[i].refs.mapM (fun r => if r > i then Table.unfold t fuel r else none) with _ | cs
+    · simp [hml] at hm
+    · simp
+
 end Tongo.Boc
